@@ -156,6 +156,7 @@ GenData(s, text, resent, flag, tlvs, retransmitting) ==
                   discl |-> s3.pend]
             q == IF retransmitting THEN s3.rsq
                  ELSE IF KF_ResendHistory THEN Append(s3.rsq, text)
+                 ELSE IF text = NoText THEN s3.rsq
                  ELSE <<text>>
         IN [ok |-> TRUE, m |-> m,
             s |-> [s3 EXCEPT !.pend = {}, !.rsf = 0, !.rsq = q]]
@@ -193,7 +194,7 @@ Finish(s, fresh) ==
   LET was == s.ms
       s1 == [s EXCEPT !.oid = s.akid + 1, !.tid = s.atid,
                       !.prev = s.ax, !.cur = fresh, !.tcur = s.agy, !.tprev = 0,
-                      !.ctrs = {}, !.macs = {}, !.pend = IF KF_ReAKEWipesMacs THEN {} ELSE s.pend,
+                      !.ctrs = {}, !.macs = {}, !.pend = IF KF_ReAKEWipesMacs THEN {} ELSE s.pend \cup {<<k[3], k[4]>> : k \in s.macs},
                       !.ms = "enc", !.renc = TRUE]
       s2 == WipeAKE(s1)
       ev == (IF s.peer = s.me THEN <<"msg:MessageReflected">> ELSE <<>>)
@@ -310,7 +311,8 @@ ProcTLVs(s, tlvs, i, acc) ==
                     [acc EXCEPT !.s = [WipeSMP(acc.s) EXCEPT !.ms = "fin", !.auth = "nil", !.renc = FALSE, !.rstep = FALSE,
                                          !.ax = 0, !.agy = 0, !.aenc = 0, !.ahash = 0, !.akid = 0, !.atid = 0,
                                          !.oid = 0, !.tid = 0, !.cur = 0, !.prev = 0, !.tcur = 0, !.tprev = 0,
-                                         !.ctrs = {}, !.macs = {}, !.pend = {}],
+                                         !.ctrs = {}, !.macs = {}, !.pend = {},
+                                         !.rsq = IF KF_ResendHistory THEN acc.s.rsq ELSE <<>>],
                                  !.evs = IF acc.s.ms = "enc" THEN Append(@, "sec:GoneInsecure") ELSE @]
                [] t = 8 -> [acc EXCEPT !.evs = Append(@, "key:extra")]
                [] OTHER -> acc
@@ -453,7 +455,8 @@ Send(s, text) ==
 End(s) ==
   LET g == IF s.ms = "enc" THEN GenData(WipeSMP(s), NoText, FALSE, 1, <<1>>, FALSE)
            ELSE [ok |-> FALSE, s |-> s, m |-> ErrorMsg]
-      s1 == IF g.ok THEN [g.s EXCEPT !.hb = FALSE] ELSE g.s
+      s1 == IF g.ok THEN [g.s EXCEPT !.hb = FALSE, !.rsq = IF KF_ResendHistory THEN @ ELSE <<>>]
+            ELSE IF s.ms = "enc" /\ ~KF_ResendHistory THEN [g.s EXCEPT !.rsq = <<>>] ELSE g.s
       s2 == [WipeAKE(s1) EXCEPT !.renc = FALSE, !.auth = "nil", !.ms = "plain",
                                 !.cur = 0, !.prev = 0, !.tcur = 0, !.rstep = FALSE]
   IN Res(s2, IF g.ok THEN <<g.m>> ELSE <<>>, NoText, s.ms = "enc" /\ ~g.ok,
